@@ -58,7 +58,8 @@ double complex vnacal_get_parameter_value(vnacal_t *vcp, int parameter,
 
     case VNACAL_UNKNOWN:
     case VNACAL_CORRELATED:
-	if (vpmrp->vpmr_frequency_vector == NULL) {
+	if (vpmrp->vpmr_frequency_vector == NULL ||
+		vpmrp->vpmr_frequencies < 1) {
 	    _vnacal_error(vcp, VNAERR_USAGE, "vnacal_get_parameter_value: "
 		    "unknown parameter value");
 	    return HUGE_VAL;
